@@ -53,8 +53,10 @@ def impl_model_history(h: dict) -> dict:
                 outs.append({"v": "accept"})
         except pydantic.ValidationError as e:
             outs.append({"v": "crash", "exn": "pydantic.ValidationError", "msg": str(e)[:100]})
+            inst = None if op["op"] != "assign" else inst
         except BaseException as e:  # noqa: BLE001
             outs.append(I.canon_exc(e))
+            inst = None if op["op"] != "assign" else inst   # assignments only follow a successful validation
     return {"v": "ok", "outs": outs}
 
 
